@@ -520,3 +520,68 @@ func takeDetached(recv interface{}) *detachedProbe {
 }
 
 func (d *detachedProbe) changed() bool { return fingerprint(d.copyV) != d.fp }
+
+// ownedTwice checks "a returned slice is the caller's": f is called, the result
+// is copied, the returned slice itself is overwritten (what a caller may do with
+// memory it was handed), and f is called again with the same arguments. It
+// returns the first result (a private copy) and, if the second result differs
+// from it, a description. A function that hands out shared or cached memory
+// returns the overwritten octets the second time.
+func ownedTwice(f func() []byte) (first []byte, diff string) {
+	r1 := f()
+	first = cloneB(r1)
+	for i := range r1 {
+		r1[i] ^= 0xa5
+	}
+	r2 := f()
+	if !bytes.Equal(r2, first) {
+		return first, fmt.Sprintf("first call returned %s; after the caller overwrote that slice, the same call returned %s", hx(first), hx(r2))
+	}
+	return first, ""
+}
+
+// marshalEverywhere walks a value and, for every addressable node that has a
+// MarshalBinary() ([]byte, error) method (lists, sublists, instructions, parts,
+// rules, filters, components ...), checks that the returned slice is the
+// caller's (ownedTwice) and holds it across later library calls (Ctx.Hold).
+// It returns the number of nodes visited.
+func marshalEverywhere(c *core.Ctx, k *core.Case, label string, v reflect.Value, depth int) int {
+	if depth > 12 || !v.IsValid() {
+		return 0
+	}
+	n := 0
+	if v.CanAddr() && v.Kind() != reflect.Ptr && v.Kind() != reflect.Interface {
+		if m := v.Addr().MethodByName("MarshalBinary"); m.IsValid() {
+			if f, ok := m.Interface().(func() ([]byte, error)); ok {
+				name := label + ":" + v.Type().String()
+				if _, owned := ownedTwice(func() []byte { b, _ := f(); return b }); owned != "" {
+					c.Fail(k, "result-not-owned:"+v.Type().String()+".MarshalBinary", owned)
+				}
+				if b, err := f(); err == nil {
+					c.Hold(k, name+".MarshalBinary", b)
+				}
+				n++
+			}
+		}
+	}
+	switch v.Kind() {
+	case reflect.Ptr, reflect.Interface:
+		if !v.IsNil() {
+			n += marshalEverywhere(c, k, label, v.Elem(), depth+1)
+		}
+	case reflect.Struct:
+		for i := 0; i < v.NumField(); i++ {
+			if v.Type().Field(i).PkgPath == "" {
+				n += marshalEverywhere(c, k, label, v.Field(i), depth+1)
+			}
+		}
+	case reflect.Slice:
+		if v.Type().Elem().Kind() == reflect.Uint8 {
+			return n
+		}
+		for i := 0; i < v.Len() && i < 8; i++ {
+			n += marshalEverywhere(c, k, label, v.Index(i), depth+1)
+		}
+	}
+	return n
+}
